@@ -255,16 +255,9 @@ def mergeKV (md : Dict) (k : Str) (v : PVals) : Except Err Dict :=
   match md.get? k with
   | none => .ok (md ++ [(k, v)])
   | some ev =>
-<<<<<<< lean/SigmaVerif/Model/Ser.lean
-    if hasInfix allSuffix k then .ok (md.set k (.many (ev.toList ++ v.toList)))
-    else if ((splitOn '|' k).drop 1).contains neqName then
-      -- `"neq" in k.split("|")[1:]`: `all` below a negation would read as NOT (a AND b)
-      .error .refused
-=======
     -- `"neq" in k.split("|")[1:]`: fusing negated items would read as NOT (a AND b)
     if ((splitOn '|' k).drop 1).contains neqName then .error .refused
     else if hasInfix allSuffix k then .ok (md.set k (.many (ev.toList ++ v.toList)))
->>>>>>> /tmp/int_theirs
     else
       match norm1 ev, norm1 v with
       | .one a, .one b =>
